@@ -1980,3 +1980,22 @@ m("C04", "lambda-defaults-inside-scope", "astutil.py",
 m("C05", "global-multi-name-whole-value", C,
   '''                    "rcontext[KEY] = econtext[KEY]", KEY=ast.Constant(''',
   '''                    "rcontext[KEY] = __value", KEY=ast.Constant(''')
+m("C05", "functiondef-no-scope", "astutil.py",
+  '''        # The parameters and local names belong to the function only.
+        self.scopes.append(set(self.scopes[-1]))
+        try:
+            for arg in args.posonlyargs + args.args + args.kwonlyargs:
+                self.visit(arg)
+            for arg in (args.vararg, args.kwarg):
+                if arg is not None:
+                    self.visit(arg)
+            for child in ast.walk(node):''',
+  '''        # The parameters and local names belong to the function only.
+        self.scopes.append(self.scopes[-1])
+        try:
+            for arg in args.posonlyargs + args.args + args.kwonlyargs:
+                self.visit(arg)
+            for arg in (args.vararg, args.kwarg):
+                if arg is not None:
+                    self.visit(arg)
+            for child in ast.walk(node):''')
